@@ -13,7 +13,8 @@
 //   (c) every single read/write call moves <= max_single_read/write (default 16384);
 //   (d) progress: a direction that is enabled, has data available, whose bucket (recomputed for the current tick with
 //       ev_token_bucket_update_ on a copy) is > 0 and whose group bucket is >= min_share, moves bytes within one tick
-//       (+25% +1ms) unless the harness touched the configuration in between.
+//       (+25% +1ms) unless the harness touched the configuration in between; for group members any member's bytes count
+//       (the shared budget is handed out in random order, an individual member may lose the draw).
 // Preconditions respected: a bufferevent leaves the group before it is freed; cfgs and the group outlive their users;
 // decrement_*_limit only on bufferevents with a per-bufferevent cfg (asserted by the library).
 #include "verif.h"
@@ -28,6 +29,7 @@
 extern "C" {
 #include "bufferevent-internal.h"
 #include "ratelim-internal.h"
+#include "util-internal.h"
 }
 
 namespace {
@@ -97,6 +99,8 @@ void io_hook(const struct sim_io_rec *r, void *) {
     TR("      io: bev%d %s %lld bytes (asked %ld) tick %lld now=%lld", i, DN[dir], (long long)n, r->requested, (long long)t, (long long)sim_now_us());
     if (dir == 0) m.backlog -= n;
     m.moved[dir] += n; m.elig_since[dir] = -1;
+    // the group budget is shared and handed out in random order: bytes moved by any member count as the group's progress
+    if (m.in_group) for (int j = 0; j < W->nb; j++) if (W->b[j].in_group) W->b[j].elig_since[dir] = -1;
     bool skip = m.cfg >= 0 && (dir == 0 ? W->ex_single_r : W->ex_single_w); if (skip && n > m.max_single[dir]) verif_known_skipped(dir == 0 ? "C22/max-single-read-exceeded" : "C22/max-single-write-exceeded");
     if (!skip)
       CHECK(n <= m.max_single[dir], dir == 0 ? "C22/max-single-read-exceeded" : "C22/max-single-write-exceeded", "bev%d: one %s call moved %lld bytes, max_single_%s is %lld (cfg=%d group=%d)", i, DN[dir], (long long)n, DN[dir], (long long)m.max_single[dir], m.cfg, m.in_group);
@@ -214,6 +218,8 @@ extern "C" int LLVMFuzzerTestOneInput(const uint8_t *data, size_t size) {
   w.gcfg = s.below(NCFG);
   w.grp = bufferevent_rate_limit_group_new(w.base, w.c[w.gcfg].cfg);
   CHECK(w.grp != nullptr, "C22/group-new-failed", "NULL");
+  // the library seeds the group's member-order RNG with the group's address: reseed for a reproducible case
+  evutil_weakrand_seed_(&w.grp->weakrand_seed, 20220922u);
   w.min_share = w.grp->min_share; grp_epoch();
   TR("group cfg%d min_share=%lld start=%lld tick=%lld", w.gcfg, (long long)w.min_share, (long long)sim_now_us(), (long long)cur_tick());
   w.nb = 1 + s.below(MAXB);
